@@ -42,6 +42,15 @@ Proof.
   - exfalso. eapply build_context_not_oof; eauto.
 Qed.
 
+(* add_components does not roll a refused batch back: what stays registered is exactly a prefix of the pre-order list
+   (the components before the offending one) - all of it when the batch is accepted. *)
+Theorem C20_partial_add_registers_prefix : forall layers l t nms cs,
+  (exists k, add_flat_prefix layers l t nms cs = nms ++ map fst (firstn k cs)) /\
+  (forall t' nms', add_flat layers l t nms cs = Ok (t', nms') -> add_flat_prefix layers l t nms cs = nms').
+Proof.
+  intros layers l t nms cs. split; [apply add_flat_prefix_spec | intros t' nms'; apply add_flat_prefix_ok].
+Qed.
+
 (* A context that builds and sets up: the set-up order is the managers (in the order added) followed by the pre-order
    of the forest - each exactly once (NoDup), every component after every manager and after its parent; the log
    checker used by the correspondence accepts it; a component named like a manager is rejected when set-up begins. *)
@@ -101,8 +110,11 @@ Theorem C20_default_clash_rejected : forall layers lm lc ls lo,
   exists e, build_context layers lm lc ls lo mgrs spec over is = Rejected e.
 Proof. exact default_clash_rejected. Qed.
 
-(* FROZEN: once set-up has begun every key path still reads the same, and every update of the configuration or of any
-   sub-tree of it is refused (the only "accepted" update is the empty one, which writes nothing). *)
+(* FROZEN: once set-up has begun every key path still reads the same, and every update of / item assignment to the
+   configuration or any sub-tree of it is refused (the only "accepted" update is the empty one, which writes nothing).
+   GUARD (open finding F-AA): the statement covers update and assignment - the operations [update] models - and NOT
+   deletion: layered_config_tree's __delitem__ / __delattr__ ignore the frozen flag ([delete_key]), see
+   C20_frozen_deletion_refuted below. *)
 Theorem C20_frozen : forall layers ctx t order, setup_context ctx = Ok (t, order) ->
   (forall p, get layers t p = get layers (c_cfg ctx) p) /\
   (forall p f ch k dk r layer src, tfind t p = Some (Tree f ch) ->
@@ -113,6 +125,17 @@ Theorem C20_frozen : forall layers ctx t order, setup_context ctx = Ok (t, order
      | CErr e => e = CFrozen \/ e = CStruct
      end).
 Proof. exact frozen_after_setup. Qed.
+
+(* F-AA: "the configuration cannot be modified once setup has begun" is FALSE of deletion - on a frozen configuration
+   `del configuration[k]` succeeds and the key path no longer reads (faithful model of the library as it is). *)
+Theorem C20_frozen_deletion_refuted : exists layers t0 k p,
+  let t := freeze t0 in
+  update layers t [(k, DVal 9)] None 0 = CErr CFrozen /\            (* assignment is refused ... *)
+  get layers t p = LVal 5 /\ get layers (delete_key t k) p = LMissing.   (* ... deletion is not *)
+Proof.
+  exists [0], (Tree false [(1, Leaf false [(0, (0, 5))]); (2, Tree false [(3, Leaf false [(0, (0, 6))])])]), 1, [1].
+  vm_compute. repeat split; reflexivity.
+Qed.
 
 (* the layer-table check used on the generated table is sound *)
 Theorem C20_layers_okb_sound : forall layers lm lc ls lo, layers_okb layers lm lc ls lo = true ->
@@ -153,10 +176,12 @@ Print Assumptions C20_parent_first.
 Print Assumptions C20_siblings_in_order.
 Print Assumptions C20_duplicates_rejected.
 Print Assumptions C20_context_rejects_duplicates.
+Print Assumptions C20_partial_add_registers_prefix.
 Print Assumptions C20_setup_once_after_managers.
 Print Assumptions C20_manager_name_clash_rejected.
 Print Assumptions C20_user_wins.
 Print Assumptions C20_order_irrelevant.
 Print Assumptions C20_default_clash_rejected.
 Print Assumptions C20_frozen.
+Print Assumptions C20_frozen_deletion_refuted.
 Print Assumptions C20_layers_okb_sound.
